@@ -17,6 +17,11 @@ type GenOpts struct {
 	UniqueStores bool
 	// ManyGroups: small work-groups, 65-280 of them (more groups than one GPU has compute units)
 	ManyGroups bool
+	// FixedGeo, when set, is used instead of a drawn geometry
+	FixedGeo *Geometry
+	// MaxValues caps the number of values (vector registers) of the program (0 = only the
+	// one-group-per-compute-unit limit applies)
+	MaxValues int
 }
 
 var interestingImm = []uint32{0, 1, 2, 3, 5, 31, 32, 33, 63, 64, 100, 255, 256, 0xffff, 0x10000, 0xffffff, 0x1000000,
@@ -145,6 +150,9 @@ func GenProgram(t *rapid.T, o GenOpts) *Program {
 	p := &Program{}
 	wantLDS := o.LDS && (o.Comm || rapid.IntRange(0, 2).Draw(t, "wantlds") == 0)
 	p.Geo = GenGeometry(t, o, wantLDS || o.Exit)
+	if o.FixedGeo != nil {
+		p.Geo = *o.FixedGeo
+	}
 	p.InLog2 = [2]int{rapid.IntRange(4, 10).Draw(t, "in0"), rapid.IntRange(4, 10).Draw(t, "in1")}
 	p.Slots = rapid.IntRange(1, 3).Draw(t, "slots")
 	p.DataSeed = rapid.Uint32().Draw(t, "dataseed")
@@ -158,6 +166,9 @@ func GenProgram(t *rapid.T, o GenOpts) *Program {
 	maxValues := 248/perSIMD - vFirstValue - 2
 	if maxValues > 150 {
 		maxValues = 150
+	}
+	if o.MaxValues > 0 && maxValues > o.MaxValues {
+		maxValues = o.MaxValues
 	}
 	nOps := rapid.IntRange(1, o.MaxOps).Draw(t, "nops")
 	nv := NumBuiltin
